@@ -75,8 +75,11 @@ func c19Prop(c *sim.Case) {
 	// Secret (two routes to one application); it must follow the Secret like its sibling
 	for j, f := range fs {
 		if f.refName != "" && f.refNS != foreign && sim.Weighted(c, "twin", 2, 1) == 1 {
-			fs = append(fs, &c19Filter{refName: f.refName, refNS: f.refNS, twin: true, w: &sim.World{Cfg: proto.Clone(f.w.Cfg).(*oidcv1.OIDCConfig)}})
-			c.Logf("filter %d: twin of filter %d", len(fs)-1, j)
+			// one twin, sometimes a dozen (per-host chains of one application)
+			for k, n := 0, 1+sim.Tail(c, "twins", 1, 14); k < n; k++ {
+				fs = append(fs, &c19Filter{refName: f.refName, refNS: f.refNS, twin: true, w: &sim.World{Cfg: proto.Clone(f.w.Cfg).(*oidcv1.OIDCConfig)}})
+				c.Logf("filter %d: twin of filter %d", len(fs)-1, j)
+			}
 			c.Class("twin-filter")
 			break
 		}
@@ -161,7 +164,8 @@ func c19Prop(c *sim.Case) {
 			ctr++
 			data := map[string][]byte{"other-key": []byte("x")}
 			if kind == "set" {
-				val = fmt.Sprintf("value-%d-%s", ctr, strings.Repeat("s", sim.Pick(c, "vlen", 3)))
+				// secrets from a few characters to a couple of hundred (generated keys, base64 of 64-128 random bytes)
+				val = fmt.Sprintf("value-%d-%s", ctr, strings.Repeat("s", sim.Tail(c, "vlen", 3, 220)))
 				data["client-secret"] = []byte(val)
 			} else if kind == "empty" {
 				data["client-secret"] = []byte{}
@@ -239,7 +243,7 @@ func TestC19(t *testing.T) {
 	if r.Shard%2 == 1 {
 		sim.EnableDebugLogging() // odd shards run with every logging scope at debug level: logging must not change what is done
 	}
-	r.Rule = "1-4 OIDC filters with a literal secret or a reference to one of three Secret names (namespace empty, current or other); histories of events on referenced and unrelated Secrets in the current and another namespace - set a new value, set empty, drop the key, mark deleting (finalizer + deletion timestamp), delete, spurious reconcile - each followed by Reconcile of that object on the controller-runtime fake client (controller built through the verif-tagged hook); after every event each filter's effective secret is compared with a reference map name -> last eligible value, and every third event an authorization-code exchange is driven through a real handler per filter and the Basic credentials received by the token endpoint are compared too. Non-trivial = a referenced Secret was applied at least twice with an unrelated or ineligible event in between (or a cross-namespace reference was refused); distinct = distinct (filter count, event sequence)."
+	r.Rule = "1-4 OIDC filters (plus 1-14 further chains with the settings of one of them) with a literal secret or a reference to one of three Secret names (namespace empty, current or other); histories of events on referenced and unrelated Secrets in the current and another namespace - set a new value (a few to ~230 characters), set empty, drop the key, mark deleting (finalizer + deletion timestamp), delete, spurious reconcile - each followed by Reconcile of that object on the controller-runtime fake client (controller built through the verif-tagged hook); after every event each filter's effective secret is compared with a reference map name -> last eligible value, and every third event an authorization-code exchange is driven through a real handler per filter and the Basic credentials received by the token endpoint are compared too. Non-trivial = a referenced Secret was applied at least twice with an unrelated or ineligible event in between (or a cross-namespace reference was refused); distinct = distinct (filter count, event sequence)."
 	r.Assumptions = []string{"the controller-runtime fake client stands in for the API server; Reconcile is invoked by the harness as the manager would after each event"}
 	parts := map[string]func(*sim.Case){"histories": c19Prop}
 	if r.Replay != "" {
